@@ -137,6 +137,7 @@ def main():
     fams = [("logic", "EQLCore_gen_logic.cfg", 3000), ("logic6", "EQLCore_gen_logic6.cfg" if thorough else "EQLCore_gen_logic6_q.cfg", 400),
             ("access", "EQLCore_gen_access.cfg" if thorough else "EQLCore_gen_access_q.cfg", 400)]
     fams.append(("quant", "EQLCore_gen_quant.cfg" if thorough else "EQLCore_gen_quant_q.cfg", 400))
+    fams.append(("quant", "EQLCore_gen_quant_d1.cfg", 100))          # every quantifier condition of depth 1
     fams.append(("poset", "EQLCore_gen_poset.cfg" if thorough else "EQLCore_gen_poset_q.cfg", 350))
     if thorough:
         fams.append(("logic_d3", "EQLCore_gen_logic_d3.cfg", 2000))
